@@ -71,6 +71,19 @@ func Listen(b *refbmc.BMC) (*Server, error) {
 	return s, nil
 }
 
+// ListenV6 is Listen on the IPv6 loopback address ([::1]); it falls back to IPv4 when the
+// host has no IPv6 loopback.
+func ListenV6(b *refbmc.BMC) (*Server, error) {
+	c, err := net.ListenUDP("udp6", &net.UDPAddr{IP: net.IPv6loopback})
+	if err != nil {
+		return Listen(b)
+	}
+	s := &Server{BMC: b, Conn: c}
+	s.wg.Add(1)
+	go s.loop()
+	return s, nil
+}
+
 func (s *Server) Addr() string { return s.Conn.LocalAddr().String() }
 
 func (s *Server) SetFault(f Fault) {
